@@ -85,3 +85,24 @@ theorem scatter_single_eq_activeCols (inp : Input) (hd : inp.doubleEnded = false
     (fun c => scatter_single_mem_activeCols inp hd hex c)
 
 end DtsVerif.C07
+
+namespace DtsVerif.C02
+open DtsVerif.Scatter DtsVerif.Calib DtsVerif.Calib.Input DtsVerif.Py
+
+/-- design and scatter compose: column `r − 1` of the code's `E` block (the attenuation unknown of reference row `r ≥ 1`,
+`design_E_matches_model`) is solver unknown `1 + 2nt + (r − 1)`, and the scatter vector sends that unknown to the documented slot of
+`A` at the location of reference row `r` -/
+theorem design_E_column_scatters_to_alpha (inp : Input) (hd : inp.doubleEnded = true) (r : Nat) (hr1 : 1 ≤ r) (hr : r < inp.ixSec.size) :
+    (fromISolver inp.nt inp.N inp.nta inp.ixSec.toList.tail)[1 + 2 * inp.nt + (r - 1)]? = some (inp.colA (inp.ixSec.getD r 0)) := by
+  have hlen : r - 1 < inp.ixSec.toList.tail.length := by simp; omega
+  rw [scatter_solver_alpha _ _ _ _ (r - 1) hlen]
+  have hcolA : inp.colA (inp.ixSec.getD r 0) = 1 + 2 * inp.nt + inp.ixSec.getD r 0 := by simp [colA, hd]
+  rw [hcolA]
+  congr 2
+  have : inp.ixSec.toList.tail[r - 1] = inp.ixSec.toList[r - 1 + 1]'(by simp; omega) := by
+    simp [List.getElem_tail]
+  rw [this]
+  have hr' : r - 1 + 1 = r := by omega
+  simp [hr', Array.getD, hr]
+
+end DtsVerif.C02
